@@ -117,7 +117,8 @@ def tlc(ctx, module, cfg=None, workers=None, simulate=None, depth=None, seed=Non
     r = TLCResult()
     specdir = ctx.specdir
     md = tempfile.mkdtemp(prefix="md-", dir=ctx.scratch)
-    cmd = ["java", "-XX:+UseParallelGC", "-Xss64m"]
+    # TLC unpacks its standard modules into java.io.tmpdir on every start: keep that inside the run's scratch
+    cmd = ["java", "-XX:+UseParallelGC", "-Xss64m", "-Djava.io.tmpdir=" + md]
     if heap:
         cmd.append("-Xmx" + heap)
     if dfs:
